@@ -48,6 +48,10 @@ func (c04) Generate(seed uint64, tier string, index int) any {
 	if g.R.Intn(4) == 0 {
 		opts = append(opts, "-I")
 	}
+	if g.R.Intn(3) == 0 {
+		// the delete pass runs before any data arrives: it must not touch listed paths
+		opts = append(opts, "--delete")
+	}
 	sc := genSync(g, arr, opts, to, true)
 	sc.ModuleFS = false
 	sc.Sources = []SrcArg{{Path: "", Slash: true}}
